@@ -7,14 +7,19 @@ class C13(Spec):
     harness = "h_c13"
     required_theorems = ("C13.plugins_order_irrelevant", "C13.fanin_by_index", "C13.verify_all_order_irrelevant", "C13.verify_worker_count_irrelevant",
                          "C13.delDupKey_spec", "C13.checkKV_order_irrelevant", "C13.merge_order_irrelevant",
-                         "C13.findByValue_order_irrelevant")
+                         "C13.findByValue_order_irrelevant", "C13.two_runs_equal_partial",
+                         "C13.checkFlag_genesis_history_independent", "C13.checkFlag_history_independent_consistent")
+    partial = ("C13.two_runs_equal_partial: composite over the modelled helpers only (sorted plugin names, merkle fan-in, signature "
+               "worker pool, DelDupKey, checkKV, cache merge); transaction execution inside the drivers, state tree and "
+               "database are compared by the repeated-execution predicate, not modelled",
+               "C13.checkFlag_history_independent_consistent: the cached flag came from this chain's database")
     quick_timeout = 3600
     level_text = ("Lean theorems of order-irrelevance where Go is non-deterministic: every modelled source of run-to-run "
                   "variation on the block-execution path is an explicit permutation argument - sorted plugin / title names for "
                   "any map iteration order, goroutine results stored by index for any arrival order (GetMerkleRoot, "
                   "calcMultiLayerMerkleInfo), the conjunction of signature verdicts for any arrival order, DelDupKey = first-seen "
                   "keys with last values, checkKV, cacheDB.Merge, ActionName - proved for all inputs and all permutations. "
-                  "Regenerated tie: a go/packages + go/types extractor lists every range-over-map, go statement, multi-way "
+                  "The helpers are composed in two_runs_equal_partial (two admissible schedules of one block give equal helper results); pluginBase.checkFlag, the one history-dependent site, is modelled (genesis emits the flag KV whatever was cached). Regenerated tie: a go/packages + go/types extractor lists every range-over-map, go statement, multi-way "
                   "select, clock/rand use and package-level cache reachable (static call graph, interface calls resolved by class "
                   "hierarchy, dapp hooks as roots) from procExecTxList / procExecAddBlock / procExecDelBlock / PreExecBlock / "
                   "ExecBlock in /repo's current source; the list must equal the committed annotated list (101 sites; it also covers writes to package-level variables and to fields of values whose type is reachable from a package-level variable, e.g. the plugin instances in globalPlugins). The "
@@ -27,7 +32,7 @@ class C13(Spec):
                   "backends other than the configured one, cgo) is seen only by the repeated-execution comparison; the worker "
                   "count dependence of the merkle chunking is property C18.")
     assumptions = ("Go's string order is a linear order", "Go maps have pairwise distinct keys",
-                   "the registered action-number maps are injective (checked by the extractor's annotation only)")
+                   "the registered action-number maps are injective: regenerated fact (values of every map[string]int32 literal extracted from the source, Nodup decided by the driver)")
 
     def runs(self, tier, seed):
         return [dict(env={"VERIF_C13_MODE": m}) for m in ("sites", "functions", "exec")]
